@@ -309,6 +309,82 @@ def c02(rec):
     return out
 
 
+def c08shift(rec):
+    """C08 (float range): TLC proved on this program that adding c to every tensor leaf adds
+    hdeg * c to the value (Inv_Homogeneous, c = log 2).  Replay with c = -400 and +400, where
+    exp() of a single leaf under/overflows: naive eager evaluation, the normalised term, the
+    optimizer's re-bracketing and einsum() must all return table + hdeg * c."""
+    from funsor.optimizer import apply_optimizer
+    exp = rec["exp"]
+    d = exp.get("hdeg", -1)
+    if d in (-1, 99) or d == 0:
+        return []
+    out = []
+    for c in (-400.0, 400.0):
+        tag = "shift%+d" % int(c)
+        shifted = dict(exp)
+        shifted["tab"] = [_shift_cell(cell, d * c) for cell in exp["tab"]]
+
+        def build(interp):
+            b = fbuild.Builder()
+            b.leaf_shift = c
+            if interp is None:
+                return b.build(rec["t"])
+            with interp:
+                return b.build(rec["t"])
+
+        def judge(what, fn):
+            try:
+                r = fn()
+            except Exception as e:  # noqa
+                out.append(_verdict("C08", "declined_error", "%s_%s:%s" % (tag, what, type(e).__name__)))
+                return
+            v = _eval_check(r, shifted, "C08", "%s_%s" % (tag, what), need_output=False)
+            out.append(v)
+        judge("eager", lambda: build(None))
+        try:
+            x = build(lazy)
+        except Exception as e:  # noqa
+            out.append(_verdict("C08", "declined_error", tag + "_build:" + type(e).__name__))
+            continue
+        if not isinstance(x, Funsor):
+            continue
+
+        def norm():
+            with normalize:
+                y = funsor.reinterpret(x)
+            return funsor.reinterpret(y)
+        judge("normalize", norm)
+        judge("optimize", lambda: apply_optimizer(x))
+        form = _einsum_form(rec["t"])
+        if form is not None and (form[0], form[1]) in EINSUM_BACKENDS:
+            from funsor.einsum import einsum
+            plus, times, eq, leaves, outs = form
+            b = fbuild.Builder()
+            b.leaf_shift = c
+            operands = [b.build(lf) for lf in leaves]
+            names = []
+            for lf in leaves:
+                for n, _ in lf["ins"]:
+                    if n not in names:
+                        names.append(n)
+            sym = {n: chr(ord("a") + k) for k, n in enumerate(names)}
+            back = {v: k for k, v in sym.items()}
+            ren = [op(**{n: sym[n] for n in op.inputs}) for op in operands]
+
+            def run_einsum():
+                r = einsum(eq, *ren, backend=EINSUM_BACKENDS[(plus, times)])
+                return r(**{s_: back[s_] for s_ in r.inputs})
+            judge("einsum", run_einsum)
+    return out
+
+
+def _shift_cell(cell, by):
+    """a table cell (array of exact scalars) shifted by a float: cells become floats"""
+    from . import vals
+    return {"sh": cell["sh"], "f": [vals.scalar_to_float(x) + by for x in cell["v"]]}
+
+
 def _einsum_form(t):
     """If t is Red(plus, product-tree of tensor leaves) (or just a product tree) over scalar
     leaves, return (plus, times, equation, leaf ASTs, output names); else None."""
